@@ -492,6 +492,9 @@ func (db *DB) SetReadOnly() error {
 		return ErrClosed
 	}
 
+	// No more table compaction from now on (see tableNeedCompaction).
+	atomic.StoreInt32(&db.readOnly, 1)
+
 	// Set compaction read-only.
 	select {
 	case db.compErrSetC <- ErrReadOnly:
